@@ -335,3 +335,39 @@ def rule_fresh(cx, tier):
                               f"changes the other", fn.file, c.line))
         r.sample({"fn": label})
     return r
+
+
+# ---------------------------------------------------------------------------------------------
+# R-REPLACE-ATOMIC (C04, C14): the multi-step replacement of a map entry is all-or-nothing
+
+def rule_replace_atomic(cx, tier):
+    r = RuleResult("R-REPLACE-ATOMIC", "the replace-at-index idiom on a map (swap_remove_index; insert; swap_indices) cannot be "
+                                       "left half-done: from the removal no function exit -- in particular no `?` error exit -- "
+                                       "is reachable without passing the final swap_indices, so an error that is thrown and "
+                                       "caught leaves the map as it was")
+    from ..mir import line_of
+    n = 0
+    for fn in cx.F.fns.values():
+        if fn.crate.uname != "koto_runtime" or fn.derived:
+            continue
+        sr = [c for c in fn.calls() if (c.pretty or "").rsplit("::", 1)[-1] == "swap_remove_index"]
+        if not sr:
+            continue
+        sw = {c.bb for c in fn.calls() if (c.pretty or "").rsplit("::", 1)[-1] == "swap_indices"}
+        cfg = cx.cfg(fn)
+        exits = set(cfg.exits)
+        label = cx.label(fn)
+        for c in sr:
+            n += 1
+            r.instances += 1
+            r.nontrivial += 1
+            p = cfg.find_path(c.bb, lambda b: b in exits, avoid=sw) if sw else None
+            r.sample({"fn": label, "line": c.line, "uninterruptible": p is None and bool(sw)})
+            if p is not None:
+                r.add(Finding("R-REPLACE-ATOMIC", label, "interruptible", "the function can return (an error propagated with "
+                              "`?`) after swap_remove_index has removed the old entry and before swap_indices has put the "
+                              "new one in its place: a caught error leaves the map without the entry and with its last "
+                              "entry moved", fn.file, c.line, [f"bb{b} {fn.file}:{line_of(fn, b)}" for b in p][-12:]))
+    r.analysed = {"swap_remove_index_sites": n}
+    r.floor("swap_remove_index sites in koto_runtime", n, 1)
+    return r
